@@ -50,6 +50,43 @@ def place_touches_field(body, place, adt_did, field_idx):
     return False
 
 
+def type_contains_adt(prog, t, adt_did, depth=0, seen=None):
+    """Does a value of type t contain a value of the ADT (by value: through fields, tuples, arrays, generic arguments of
+    transparent wrappers such as Option; not through references or raw pointers)?"""
+    if t is None or depth > 6:
+        return False
+    k = t.get("k")
+    if k == "adt":
+        if t["did"] == adt_did:
+            return True
+        seen = seen or set()
+        if t["did"] in seen:
+            return False
+        seen = seen | {t["did"]}
+        a = prog.adt(t["did"]) if hasattr(prog, "adt") else None
+        if a is not None and not a.get("opaque"):
+            for v in a["variants"]:
+                for f in v["fields"]:
+                    if type_contains_adt(prog, f["ty"], adt_did, depth + 1, seen):
+                        return True
+        return any(type_contains_adt(prog, x, adt_did, depth + 1, seen) for x in t.get("args", []) if x.get("k") not in ("region", "const")) \
+            if (a is None or not a.get("opaque") or t.get("name") in ("Option", "Result", "MaybeUninit", "RefCell", "Cell")) else False
+    if k in ("array", "slice"):
+        return type_contains_adt(prog, t["ty"], adt_did, depth + 1, seen)
+    if k == "tuple":
+        return any(type_contains_adt(prog, x, adt_did, depth + 1, seen) for x in t["tys"])
+    return False
+
+
+def place_overwrites_enclosing(prog, body, place, adt_did):
+    """A store through a deref/field projection whose target type contains the ADT by value replaces every field of it
+    (`*self = Self::new_raw()`), although no projection names the field."""
+    if not place["p"]:
+        return False
+    tys = prefix_types(body, place)
+    return type_contains_adt(prog, tys[-1], adt_did)
+
+
 def field_write_sites(prog, adt_did, field_idx):
     """[(fn, kind, span)] of every statement that stores to / takes a mutable reference of the given field, or builds the ADT."""
     out = []
@@ -61,6 +98,8 @@ def field_write_sites(prog, adt_did, field_idx):
                 if s["k"] == "assign":
                     if place_touches_field(body, s["place"], adt_did, field_idx):
                         out.append((fn, "store", s.get("span")))
+                    elif place_overwrites_enclosing(prog, body, s["place"], adt_did):
+                        out.append((fn, "overwrite of an enclosing object", s.get("span")))
                     rv = s["rv"]
                     if rv["k"] in ("ref", "rawptr") and (rv.get("mut") or "Mut" in rv.get("kind", "")) and place_touches_field(body, rv["place"], adt_did, field_idx):
                         out.append((fn, "mutable reference", s.get("span")))
@@ -71,6 +110,8 @@ def field_write_sites(prog, adt_did, field_idx):
             t = bb["term"]
             if t["k"] == "call" and place_touches_field(body, t["dest"], adt_did, field_idx):
                 out.append((fn, "store (call result)", t.get("span")))
+            elif t["k"] == "call" and place_overwrites_enclosing(prog, body, t["dest"], adt_did):
+                out.append((fn, "overwrite of an enclosing object (call result)", t.get("span")))
     return out
 
 
